@@ -123,7 +123,7 @@ theorem step_invalid (b : BitBuffer) (op : WOp) (h : b.Inv) (hv : ¬ op.Valid) :
   cases op with
   | bit x => exact absurd trivial hv
   | bits src off len =>
-    exact BitBuffer.writeBitsWithOffsetLen_err b src off len h (by simp [WOp.Valid] at hv; omega)
+    exact BitBuffer.writeBitsWithOffsetLen_err b src off len (by simp [WOp.Valid] at hv; omega)
 
 /-- every reachable state: any sequence of valid writes starting from the empty buffer (or any
     state satisfying the invariant) -/
